@@ -339,7 +339,7 @@ fn c43_tb_steer_1clock_progress() {
 /// bound: one steered clock, no links, no external clocks.
 #[kani::proof]
 #[kani::unwind(6)]
-fn c42_b_controller_failed_ops_unaltered() {
+fn c42_tb_controller_failed_ops_unaltered() {
     let (state, id) = any_state_1clock();
     let before = state.filter.clone();
     let c = KalmanController::<S1, MockClock> {
